@@ -53,13 +53,15 @@ def run_parse(out, tier, seed, want):
         if len(cs) != r.distinct:
             raise vlib.ToolError("ParseTotal: cases != states")
         tlc_cases += cs
+    # nesting towers / chains: C02 observes termination, C01 that the tree still reproduces the text
+    # (the parser gives up beyond a nesting limit - whatever it does then must stay lossless)
+    r = vlib.tlc("ParseTotal", "ParseTotal_tower.cfg", workers=2, timeout=300)
+    vlib.require_ok(r, "ParseTotal tower")
+    out.add_tlc(r, "GEN towers")
+    towers = list(r.cases())
+    maxh = (10000 if tier == "quick" else 1000000) if want == "C02" else (1000 if tier == "quick" else 10000)
+    tlc_cases += [t for t in towers if t["seq"][1] <= maxh]
     if want == "C02":
-        r = vlib.tlc("ParseTotal", "ParseTotal_tower.cfg", workers=2, timeout=300)
-        vlib.require_ok(r, "ParseTotal tower")
-        out.add_tlc(r, "GEN towers")
-        towers = list(r.cases())
-        maxh = 10000 if tier == "quick" else 1000000
-        tlc_cases += [t for t in towers if t["seq"][1] <= maxh]
         # the progress model: guard is safe below F/U levels and TLC must find the counterexample above
         r = vlib.tlc("ParseTotal", "ParseTotal_fuel.cfg", workers=2, timeout=300)
         vlib.require_ok(r, "ParseTotal fuel model")
